@@ -204,7 +204,7 @@ def history (spec : String) : String :=
           some { st with ctx := { st.ctx with repo := (st.ctx.repo.filter fun m => !(m.name == src.name && m.rev == src.rev)) ++ [src] } }
         | none => none
       | "S" :: _ => some st
-      | _ => step st ts) (some { ctx := { cfg := Cfg.code } })
+      | _ => step st ts) (some { ctx := { cfg := Cfg.code, cfg2 := Cfg2.code } })
   match res with
   | some st => "ok" ++ String.join (st.out.map (" " ++ ·))
   | none => "err BadSpec"
@@ -228,11 +228,11 @@ def ylhistory (spec : String) : String :=
           some { st with ctx := { st.ctx with repo := (st.ctx.repo.filter fun m => !(m.name == src.name && m.rev == src.rev)) ++ [src] } }
         | none => none
       | "S" :: _ => some st
-      | _ => step st ts) (some { ctx := { cfg := Cfg.code } })
+      | _ => step st ts) (some { ctx := { cfg := Cfg.code, cfg2 := Cfg2.code } })
   match res with
   | none => "err BadSpec"
   | some st =>
-    let tail : String := match ylLoad st.ctx.repo (ylGen st.ctx) st.ctx.cfg with
+    let tail : String := match ylLoad st.ctx.repo (ylGen st.ctx) st.ctx.cfg st.ctx.cfg2 with
       | .error _ => "Y1"
       | .ok c2 =>
         let st2 := snapshot { st with ctx := c2, data := [], out := [] } 0
